@@ -446,6 +446,8 @@ def types_battery():
         {"vars": [["dm", [[0, 1, 2]] * 36]], "obj": [{"fam": "abs", "p": {"shift": 1.0}}]},                                            # 36 discrete children
         {"vars": [["cs", 0.0, 10.0, 0.25], ["cs", -1.0, 1.0, 0.125], ["cs", 5.0, 6.0, 0.5]], "obj": [{"fam": "sphere", "p": {"shift": 0.3}}]},  # user subclass
         {"vars": [["cm", [-3.0, -3.0, -3.0], [3.0, 3.0, 3.0]]], "obj": [{"fam": "sphere", "p": {"shift": 0.3}}], "ret": "np0d", "force": "min"},  # 0-d array
+        {"vars": [["d", [3, 5, 7, 11, 13]], ["d", [0.5, 1.5, 2.5, 3.5]]], "obj": [{"fam": "abs", "p": {"shift": 0.5}}], "ret": "np0d_memo", "force": "max"},   # memoised pay-off table
+        {"vars": [["cm", [-3.0, -3.0], [3.0, 3.0]]], "obj": [{"fam": "sphere", "p": {"shift": 0.3}}], "ret": "np0d_memo", "force": "max"},  # corners come back
         {"vars": [["cm", [1.0, 1.0, 1.0, 1.0], [1.0 + 1e-12] * 4]], "obj": [{"fam": "sphere", "p": {"shift": 0.3}}]},                   # all bounds 1e-12 wide
         {"vars": [["cm", [-10.0, -10.0, -10.0], [10.0, 10.0, 10.0]]], "obj": [{"fam": "linear", "p": {"scale": 300.0, "offset": -2000.0}}]},   # mixed sign, large negative
     ]
